@@ -368,6 +368,19 @@ func (e *Engine) pick(n int) int {
 	if n <= 1 {
 		return 0
 	}
+	if e.cfg.Replay != nil {
+		// concrete re-execution: follow the recorded enumerated choices
+		// (harness picks and scheduling decisions share one sequence)
+		picks, _ := e.cfg.Replay["__picks"].([]any)
+		k := e.tagcount["__pickpos"]
+		e.tagcount["__pickpos"] = k + 1
+		if k < len(picks) {
+			if v := int(toU64(picks[k])); v < n {
+				return v
+			}
+		}
+		return 0
+	}
 	if e.tpos < len(e.trace) {
 		d := &e.trace[e.tpos]
 		e.tpos++
@@ -463,6 +476,12 @@ func (e *Engine) Run() *RunResult {
 	for {
 		e.resetPath()
 		end := e.runPath(fn, pkg)
+		if e.cfg.Replay != nil && os.Getenv("GOSYM_DEBUG") != "" {
+			fmt.Fprintln(os.Stderr, "replay path end:", end.reason, end.detail)
+			for _, ev := range e.events {
+				fmt.Fprintln(os.Stderr, "   ", ev)
+			}
+		}
 		if end.reason == "ok" && e.cfg.Replay == nil && len(e.res.Witnesses) < e.cfg.Witnesses && e.threads == nil && !e.usedRand {
 			if w := e.model(nil); w != nil {
 				var picks []int
